@@ -330,18 +330,21 @@ def run_for(E, stmt, s, it, spec, ordinal):
     items = concrete_items(E, s, it)
     if items is not None and (spec is None or spec.unroll is not None or not spec.invariant) \
             and len(items) <= E.max_const_unroll:
-        return unroll_for(E, stmt, s, items)
+        return unroll_for(E, stmt, s, items,
+                          index=spec.index if spec is not None and spec.unroll is not None else None)
     if spec is None:
         raise Unsupported(f"for loop #{ordinal} at line {stmt.lineno} over a symbolic sequence has no invariant")
     return cut_for(E, stmt, s, it, spec, ordinal)
 
 
-def unroll_for(E, stmt, st, items):
+def unroll_for(E, stmt, st, items, index=None):
     out = []
     frontier = [st]
-    for x in items:
+    for k, x in enumerate(items):
         nxt = []
         for s in frontier:
+            if index is not None:
+                s.locals["__" + index] = mk_int(k)   # visible to invariants of nested loops (as in cut_for)
             for s1, fl in E.assign(s, stmt.target, x):
                 if fl[0] != "next":
                     out.append((s1, fl))
